@@ -1048,7 +1048,7 @@ def gen_sess(ctx, effective):
 MAIN_TEST_ARGS = ["-test.run", "^TestVerifC06Main$"]
 MAIN_DEFAULT_PATTERN = b"snowflake.torproject.net$"
 MAIN_DEFAULT_RELAY = b"wss://snowflake.bamsoftware.com/"
-MAIN_DEADLINE = 120
+MAIN_DEADLINE = 150
 
 
 def main_inside(pat):
